@@ -49,6 +49,13 @@ def run(tier):
              % (rz["distinct"], tz_len, repz["evaluations"], repz["mismatch_count"]))
     v.add(repz["mismatches"])
     os.remove(rz["out_path"])
+    rp = core.tlc("MC_PepToZerv", "SPECIFICATION Spec\nCONSTANTS\n  Emit = TRUE\nINVARIANTS PepIsFixedPoint SemVerIsSemVer EmitLine\nCHECK_DEADLOCK FALSE\n",
+                  "c07-peptozerv", workers=8, timeout=7200)
+    repp = core.zv(["replay", "tozerv", rp["out_path"], "pep440"], timeout=14400)
+    core.log("  PEP 440 -> Zerv: %d values (1-5 release numbers, local segments), %d renderings replayed, %d mismatches"
+             % (rp["distinct"], repp["evaluations"], repp["mismatch_count"]))
+    v.add(repp["mismatches"])
+    os.remove(rp["out_path"])
     n = 20000 if tier == "quick" else 200000
     chunk = 20000
     tev = tbad = 0
